@@ -1215,9 +1215,27 @@ def rule_tower_shapes(prop, repo):
         ("%s::scale_fq" % T4, [(("scale",), 0, "by"), (("scale",), 1, "by")]),
         ("%s::scale" % T12, [(("mul",), 0, "by"), (("mul",), 1, "by"), (("mul",), 2, "by")]),
     ]
+    SELF_ = (("param", 1), ("init", ("deref", 1)))
+
+    def is_double_plus_self(rv):
+        rv = strip(rv)
+        ok = rv[0] == "call" and rv[1].name == "add" and len(rv[2]) == 2
+        if ok:
+            a, c = strip(rv[2][0]), strip(rv[2][1])
+            if a in SELF_:
+                a, c = c, a
+            ok = c in SELF_ and a[0] == "call" and a[1].name == "double" and strip(a[2][0]) in SELF_
+        return ok
+    # a type without a `triple` of its own inherits the trait's provided method: `self.double() + self` for every implementor
+    # (its double and its + are judged on their own)
+    pb_ = F.bodies.get("crate::fields::FieldElement::triple")
+    provided_triple = pb_ is not None and is_double_plus_self(repo.tb(pb_).return_value())
     for path, want in specs:
         b = F.bodies.get(path)
         R.instance()
+        if b is None and path.endswith("::triple") and provided_triple:
+            R.ok(sample={"fn": path, "inherits": "FieldElement::triple = self.double() + self"} if R.instances % 4 == 1 else None)
+            continue
         if b is None:
             R.fail_closed("%s:shape:%s" % (prop, path), "%s not found" % path)
             continue
@@ -1251,17 +1269,14 @@ def rule_tower_shapes(prop, repo):
         path = "<%s as crate::fields::FieldElement>::triple" % ap
         b = F.bodies.get(path)
         R.instance()
+        if b is None and provided_triple:
+            R.ok(sample={"fn": path, "inherits": "FieldElement::triple = self.double() + self"})
+            continue
         if b is None:
             R.fail_closed("%s:shape:%s" % (prop, path), "%s not found" % path)
             continue
         rv = repo.tb(b).return_value()
-        SELF = (("param", 1), ("init", ("deref", 1)))
-        ok = rv[0] == "call" and rv[1].name == "add" and len(rv[2]) == 2
-        if ok:
-            a, c = strip(rv[2][0]), strip(rv[2][1])
-            if a in SELF:
-                a, c = c, a
-            ok = c in SELF and a[0] == "call" and a[1].name == "double" and strip(a[2][0]) in SELF
+        ok = is_double_plus_self(rv)
         R.check(ok, "%s:shape:%s" % (prop, path), "%s is not double(self) + self: %s" % (path, show(rv, maxdepth=3)[:120]), b.file_line(), path, sample={"fn": path, "is": "self.double() + self"})
     # ---- sparse helpers: table of (function, parameter, component path that the function never reads)
     SPARSE = [("%s::mul_1" % T4, 2, (0,), "b.c0 = 0"), ("%s::mul_015" % T12, 2, (1,), "b.c1 = 0"), ("%s::mul_015" % T12, 2, (2, 0), "b.c2.c0 = 0")]
